@@ -1,3 +1,4 @@
+import GoLevel.Gen.Consts
 /-!
 # The write-merge protocol of `db_write.go` as an interleaving transition system (property C10)
 
@@ -27,11 +28,65 @@ shown is the one *before* the increment, the increment is applied by `reply`.
 
 Ghost state (never read by a guard): `St.cur` (index of the thread that holds the token), `Thread.acc`
 (leader that merged this writer), and the group record kept in the leader's own thread record
-(`gseq gn gsync jout pub gres`: first sequence number, number of records, sync flag, journal outcome,
-published sequence number, the error value passed to `unlockWrite`).  A writer leads at most once, so the
-leader's index identifies the group.
+(`gseq gn jout jsync jrecs arecs pub gres members`: first sequence number, number of records, journal outcome,
+the `sync` argument and the records of the journal write, the records put into the memdb, published
+sequence number, the error value passed to `unlockWrite`, the `writeMerge` messages accepted).  A writer
+leads at most once, so the leader's index identifies the group.
+
+## What a group carries (wp34)
+
+Every writer call has data: `put` (`DB.Put`/`DB.Delete` via `putRec`, as opposed to `DB.Write(batch)`),
+`recs` (the identities of its records, in order), `size` (`batch.internalLen`, resp.
+`len(key)+len(value)+8`), `sync` (`wo.GetSync() && !o.GetNoSync()`).  Batch *objects* have contents that
+steps can change: `Thread.cb` is the caller's `*Batch` of a `Write` call, `Thread.pb` the pooled batch the
+thread took from `db.batchPool` (`putRec`, or the merge loop of `writeLocked`), `St.pool` the contents of
+the batches lying in `db.batchPool` (`sync.Pool` hands out any of them, or a new empty one).  The locals
+of `writeLocked` live in the leader's thread record: `batches` (`[]*Batch` as a list of object
+references `Obj`), `our` (`ourBatch != nil`), `gsync` (`sync`), `glimit` (`mergeLimit`), `gfree`
+(`mdbFree`), `bsize` (`batch.internalLen`, which grows when `batch == ourBatch`), `merged`/`overflow` (in
+the program counter).  `Cfg` has one flag per place where the handling of this data has been seen to go
+wrong (seeded changes); `Cfg.code` reads the flags off the source (`Gen.wp…`), `{}` is the configuration
+the theorems of `Props/C10` are about, and `C10.code_cfg : Cfg.code = {}`.
 -/
 namespace GoLevel.WP
+
+/-- where the treatment of a group's contents can differ (all `true`: the code as read by `tools/extract`) -/
+structure Cfg where
+  /-- `sync = sync || incoming.sync` is a statement of the merge-loop body outside both branches (it is
+  executed for a merged batch *and* for a merged Put) -/
+  syncAll : Bool := true
+  /-- `ourBatch.Reset()` follows `ourBatch = db.batchPool.Get().(*Batch)` in the merge loop -/
+  poolReset : Bool := true
+  /-- the record of a merged Put is appended with `ourBatch.appendRec` (not `batch.appendRec`) -/
+  appendOur : Bool := true
+  /-- `unlockWrite` tests `if overflow {` and nothing else: the overflowed writer is answered whatever `err` -/
+  handoffOnErr : Bool := true
+deriving DecidableEq, Repr
+
+/-- the configuration read off the source -/
+def Cfg.code : Cfg :=
+  { syncAll := Gen.wpSyncOutsideBranches, poolReset := Gen.wpPoolBatchReset,
+    appendOur := Gen.wpMergedPutToOurBatch, handoffOnErr := Gen.wpUnlockHandsOffOnError }
+
+/-- identity of a record (one key/value or key/tombstone) -/
+abbrev Rec := Nat
+
+/-- ghost copy of an accepted `writeMerge` message (`incoming`): sender, `sync`, `batch == nil`, the
+records, `internalLen` -/
+structure Mem where
+  idx : Nat
+  sync : Bool
+  put : Bool
+  recs : List Rec
+  size : Nat
+deriving DecidableEq, Repr
+
+/-- an element of `batches []*Batch`: the leader's `batch`, the pooled `ourBatch`, or `incoming.batch` of
+writer `i` (contents `c` as read when it was appended: nothing can change the batch of a writer blocked in
+`<-db.writeMergedC` / `<-db.writeAckC`, see `Thread.accept`) -/
+inductive Obj
+  | own | our | other (i : Nat) (c : List Rec)
+deriving DecidableEq, Repr
 
 /-- what a call returned: `nil`, a storage error, `ErrClosed`, the persistent compaction error -/
 inductive Res | ok | err | closed | perErr
@@ -57,21 +112,50 @@ structure Thread where
   kind : Kind := .writer
   /-- `!wo.NoWriteMerge && !o.NoWriteMerge` -/
   merge : Bool := true
-  /-- `batch.internalLen` -/
+  /-- the call is `DB.Put`/`DB.Delete` (`putRec`: `incoming.batch == nil`), not `DB.Write(batch)` -/
+  put : Bool := false
+  /-- `batch.internalLen`, resp. `len(key) + len(value) + 8` -/
   size : Nat := 1
-  /-- `batch.Len()` -/
-  nrec : Nat := 1
+  /-- the records of the call, in the order of the caller's batch (`batch.Len() = recs.length`) -/
+  recs : List Rec := [0]
+  /-- `wo.GetSync() && !db.s.o.GetNoSync()` -/
   sync : Bool := false
+  /-- contents of the caller's `*Batch` (a `Write` call); initially `recs` -/
+  cb : List Rec := [0]
+  /-- contents of the pooled batch this thread took from `db.batchPool` (meaningful while `our`) -/
+  pb : List Rec := []
   pc : Pc := .idle
   acc : Option Nat := none
+  /-- `ourBatch != nil` -/
+  our : Bool := false
+  /-- `batch.internalLen` of the `batch` argument of `writeLocked` -/
+  bsize : Nat := 0
+  /-- `mdbFree` -/
+  gfree : Nat := 0
+  /-- `mergeLimit` -/
   glimit : Nat := 0
-  gn : Nat := 0
+  /-- `batches` -/
+  batches : List Obj := []
+  /-- `sync` (the local of `writeLocked`) -/
   gsync : Bool := false
+  /-- ghost: the accepted messages, in order -/
+  members : List Mem := []
+  /-- `batchesLen(batches)` when the merge loop is left -/
+  gn : Nat := 0
   gseq : Nat := 0
   jout : Option Bool := none
+  /-- the `sync` argument of `db.writeJournal` -/
+  jsync : Option Bool := none
+  /-- the records `db.writeJournal(batches, …)` wrote -/
+  jrecs : List Rec := []
+  /-- the records the `putMem` loop inserted -/
+  arecs : List Rec := []
   pub : Option Nat := none
   gres : Option Res := none
 deriving DecidableEq, Repr
+
+/-- `batch.Len()` -/
+def Thread.nrec (w : Thread) : Nat := w.recs.length
 
 structure St where
   ws : List Thread
@@ -81,6 +165,9 @@ structure St where
   /-- `db.seq` -/
   seq : Nat := 0
   cur : Option Nat := none
+  /-- contents of the batches in `db.batchPool` -/
+  pool : List (List Rec) := []
+  cfg : Cfg := {}
 deriving DecidableEq, Repr
 
 /-! ## counting functions -/
@@ -117,17 +204,108 @@ def tot (f : Pc → Nat) (ws : List Thread) : Nat := (ws.map (fun t => f t.pc)).
 /-- the termination measure -/
 def measure (s : St) : Nat := tot wt s.ws
 
+/-! ## what `writeLocked` computes -/
+
+/-- the merge limit of `writeLocked`: `n = batch.internalLen`,
+```
+if n > 128<<10 { mergeLimit = (1<<20) - n } else { mergeLimit = 128<<10 }
+mergeCap := mdbFree - n
+if mergeLimit > mergeCap { mergeLimit = mergeCap }
+```
+Go `int`s may be negative here; the only use is `for mergeLimit > 0` and `x > mergeLimit`, for which
+truncated subtraction gives the same answers. -/
+def mergeLimitOf (n mdbFree : Nat) : Nat :=
+  let lim := if n > Gen.wpMergeBigBatch then Gen.wpMergeLimitBig - n else Gen.wpMergeLimitSmall
+  let cap := mdbFree - n
+  if lim > cap then cap else lim
+
+/-- `db.batchPool.Get()`: `none` is a new empty batch (`newBatch`), `some k` the `k`-th pooled one -/
+def poolGet (pool : List (List Rec)) : Option Nat → List Rec × List (List Rec)
+  | none => ([], pool)
+  | some k => (pool[k]?.getD [], pool.eraseIdx k)
+
+/-- contents of an element of `batches` for a leader with `put`, caller's batch `cb`, pooled batch `pb`
+(`batch` is the pooled batch for a `Put` leader, the caller's for a `Write` leader) -/
+def contentOf (put : Bool) (cb pb : List Rec) : Obj → List Rec
+  | .own => if put then pb else cb
+  | .our => pb
+  | .other _ c => c
+
+def flatOf (put : Bool) (cb pb : List Rec) (batches : List Obj) : List Rec :=
+  batches.flatMap (contentOf put cb pb)
+
+/-- all records of `batches`, in the order `writeBatchesWithHeader` / the `putMem` loop go through them -/
+def Thread.flat (l : Thread) : List Rec := flatOf l.put l.cb l.pb l.batches
+
 /-! ## thread updates -/
 
-/-- the thread starts `writeLocked` (after `w.lock` or after a hand-off) -/
+/-- the thread starts `writeLocked` (after `w.lock` or after a hand-off).  `putRec` first does
+`batch := db.batchPool.Get().(*Batch); batch.Reset(); batch.appendRec(kt, key, value)` and calls
+`writeLocked(batch, batch, merge, sync)`; `Write` calls `writeLocked(batch, nil, merge, sync)`. -/
 def Thread.asLeader (w : Thread) : Thread :=
-  { w with pc := .lead .flush 0 false, gn := w.nrec, gsync := w.sync }
+  { w with pc := .lead .flush 0 false, gsync := w.sync, bsize := w.size, our := w.put,
+           pb := if w.put then w.recs else [] }
 
 def Thread.setPc (w : Thread) (p : Pc) : Thread := { w with pc := p }
 
 /-- `unlockWrite(o, m, r)` is entered -/
 def Thread.unlock (l : Thread) (m : Nat) (o : Bool) (r : Res) : Thread :=
   { l with pc := .lead (.acking m r) m o, gres := some r }
+
+/-- contents of the pooled batch after the Put branch (`ourBatch` taken from the pool and reset if there was
+none, then `appendRec`) -/
+def Thread.acceptPb (c : Cfg) (l w : Thread) (stale : List Rec) : List Rec :=
+  if w.put then
+    let pb0 := if l.our then l.pb else if c.poolReset then [] else stale
+    if c.appendOur || l.put then pb0 ++ w.recs else pb0
+  else l.pb
+
+/-- contents of the caller's batch of the leader: touched only if the record of a merged Put is appended to
+`batch` (not `ourBatch`) and `batch` is the caller's -/
+def Thread.acceptCb (c : Cfg) (l w : Thread) : List Rec :=
+  if w.put && !(c.appendOur || l.put) then l.cb ++ w.recs else l.cb
+
+/-- `batch.internalLen` grows when the record goes to `batch` (a `Put` leader has `batch == ourBatch`) -/
+def Thread.acceptBsize (c : Cfg) (l w : Thread) : Nat :=
+  if w.put && (l.put || !c.appendOur) then l.bsize + w.size else l.bsize
+
+def Thread.acceptBatches (l : Thread) (i : Nat) (w : Thread) : List Obj :=
+  if w.put then (if l.our then l.batches else l.batches ++ [.our]) else l.batches ++ [.other i w.cb]
+
+/-- the body of `case incoming := <-db.writeMergeC` when `incoming` (from writer `i`, thread record `w`)
+fits; `stale` is what the batch handed out by `db.batchPool.Get()` contains.
+```
+if incoming.batch != nil { batches = append(batches, incoming.batch); mergeLimit -= incoming.batch.internalLen }
+else { if ourBatch == nil { ourBatch = db.batchPool.Get().(*Batch); ourBatch.Reset(); batches = append(batches, ourBatch) }
+       ourBatch.appendRec(incoming.keyType, incoming.key, incoming.value); mergeLimit -= internalLen }
+sync = sync || incoming.sync
+```
+A `Put` leader has `ourBatch == batch`.  The contents of `incoming.batch` are read here (`w.cb`) although
+the code reads them in `writeJournal`/`putMem`: in between `w` is blocked, and only `w` itself could touch
+its batch. -/
+def Thread.accept (c : Cfg) (l : Thread) (i : Nat) (w : Thread) (stale : List Rec) : Thread :=
+  { l with our := l.our || w.put,
+           pb := l.acceptPb c w stale, cb := l.acceptCb c w, bsize := l.acceptBsize c w,
+           batches := l.acceptBatches i w,
+           glimit := l.glimit - w.size,
+           gsync := if c.syncAll || !w.put then l.gsync || w.sync else l.gsync,
+           members := l.members ++ [{ idx := i, sync := w.sync, put := w.put, recs := w.recs, size := w.size }] }
+
+/-- the merge loop is left: `seq := db.seq + 1`, and `batchesLen(batches)` is what every later use computes -/
+def Thread.grouped (l : Thread) (seq : Nat) (m : Nat) (o : Bool) : Thread :=
+  { l with pc := .lead .journal m o, gseq := seq + 1, gn := l.flat.length }
+
+/-- `db.writeJournal(batches, seq, sync)` has run -/
+def Thread.journalled (l : Thread) (ok : Bool) : Thread :=
+  { l with jout := some ok, jsync := some l.gsync, jrecs := l.flat }
+
+/-- the pool after `db.batchPool.Get()` by a thread that needs a pooled batch (`need`) -/
+def poolAfterGet (pool : List (List Rec)) (need : Bool) (g : Option Nat) : List (List Rec) :=
+  if need then (poolGet pool g).2 else pool
+
+/-- `defer db.batchPool.Put(ourBatch)` (registered after the merge loop, so not after a failed `flush`) -/
+def poolAfterPut (pool : List (List Rec)) (l : Thread) : List (List Rec) :=
+  if l.our && !l.batches.isEmpty then pool ++ [l.pb] else pool
 
 def set2 (ws : List Thread) (j : Nat) (l : Thread) (i : Nat) (w : Thread) : List Thread :=
   (ws.set j l).set i w
@@ -151,9 +329,10 @@ inductive Step : St → St → Prop
       (hk : w.kind = .writer ∨ w.kind = .transient) (hc : s.perErr = true) :
       Step s { s with ws := s.ws.set i (w.setPc (.returned .perErr)) }
   /-- `case db.writeLockC <- struct{}{}` in `Write`/`putRec` -/
-  | lock (s : St) (i : Nat) (w : Thread) (hi : s.ws[i]? = some w) (hp : w.pc = .selecting)
+  | lock (s : St) (i : Nat) (w : Thread) (g : Option Nat) (hi : s.ws[i]? = some w) (hp : w.pc = .selecting)
       (hk : w.kind = .writer) (ht : s.token = false) :
-      Step s { s with ws := s.ws.set i w.asLeader, token := true, cur := some i }
+      Step s { s with ws := s.ws.set i w.asLeader, token := true, cur := some i,
+                      pool := poolAfterGet s.pool w.put g }
   /-- a competitor takes the token -/
   | hAcquire (s : St) (i : Nat) (w : Thread) (hi : s.ws[i]? = some w) (hp : w.pc = .selecting)
       (hk : w.kind ≠ .writer) (ht : s.token = false) :
@@ -162,21 +341,23 @@ inductive Step : St → St → Prop
   | hRelease (s : St) (i : Nat) (w : Thread) (hi : s.ws[i]? = some w) (hp : w.pc = .hold)
       (hk : w.kind = .transient ∨ (w.kind = .perErrH ∧ s.closed = true)) :
       Step s { s with ws := s.ws.set i (w.setPc (.returned .ok)), token := false, cur := none }
-  /-- `db.flush` succeeded; `lim` is the merge limit computed from `mdbFree` -/
-  | flushOk (s : St) (j : Nat) (l : Thread) (m : Nat) (o : Bool) (lim : Nat) (hj : s.ws[j]? = some l)
+  /-- `db.flush` succeeded with `mdbFree = free`; `batches = []*Batch{batch}`, the merge limit is computed -/
+  | flushOk (s : St) (j : Nat) (l : Thread) (m : Nat) (o : Bool) (free : Nat) (hj : s.ws[j]? = some l)
       (hp : l.pc = .lead .flush m o) :
-      Step s { s with ws := s.ws.set j { l with pc := .lead .merging 0 false, glimit := lim } }
+      Step s { s with ws := s.ws.set j { l with pc := .lead .merging 0 false, gfree := free,
+                                                glimit := mergeLimitOf l.bsize free, batches := [.own] } }
   /-- `db.flush` failed: `db.unlockWrite(false, 0, err)` -/
   | flushFail (s : St) (j : Nat) (l : Thread) (m : Nat) (o : Bool) (hj : s.ws[j]? = some l)
       (hp : l.pc = .lead .flush m o) :
       Step s { s with ws := s.ws.set j (l.unlock 0 false .err) }
   /-- `incoming := <-db.writeMergeC`, it fits: `merged++` -/
-  | recvAccept (s : St) (i j : Nat) (w l : Thread) (m : Nat) (hj : s.ws[j]? = some l) (hi : s.ws[i]? = some w)
+  | recvAccept (s : St) (i j : Nat) (w l : Thread) (m : Nat) (g : Option Nat) (hj : s.ws[j]? = some l)
+      (hi : s.ws[i]? = some w)
       (hp : l.pc = .lead .merging m false) (hm : l.merge = true) (hl : 0 < l.glimit)
       (hq : w.pc = .selecting) (hk : w.kind = .writer) (hwm : w.merge = true) (hsz : w.size ≤ l.glimit) :
-      Step s { s with ws := set2 s.ws j { l with pc := .lead .replying m false, glimit := l.glimit - w.size,
-                                                   gn := l.gn + w.nrec, gsync := l.gsync || w.sync }
-                                     i (w.setPc .waitMerged) }
+      Step s { s with ws := set2 s.ws j ((l.accept s.cfg i w (poolGet s.pool g).1).setPc (.lead .replying m false))
+                                     i (w.setPc .waitMerged),
+                      pool := poolAfterGet s.pool (w.put && !l.our) g }
   /-- `db.writeMergedC <- true` -/
   | reply (s : St) (i j : Nat) (w l : Thread) (m : Nat) (o : Bool) (hj : s.ws[j]? = some l) (hi : s.ws[i]? = some w)
       (hp : l.pc = .lead .replying m o) (hq : w.pc = .waitMerged) :
@@ -186,27 +367,27 @@ inductive Step : St → St → Prop
   | recvOverflow (s : St) (i j : Nat) (w l : Thread) (m : Nat) (hj : s.ws[j]? = some l) (hi : s.ws[i]? = some w)
       (hp : l.pc = .lead .merging m false) (hm : l.merge = true) (hl : 0 < l.glimit)
       (hq : w.pc = .selecting) (hk : w.kind = .writer) (hwm : w.merge = true) (hsz : l.glimit < w.size) :
-      Step s { s with ws := set2 s.ws j { l with pc := .lead .journal m true, gseq := s.seq + 1 }
-                                     i (w.setPc .waitMerged) }
+      Step s { s with ws := set2 s.ws j (l.grouped s.seq m true) i (w.setPc .waitMerged) }
   /-- `default: break merge`, the limit is used up, or `merge = false` -/
   | mergeDone (s : St) (j : Nat) (l : Thread) (m : Nat) (o : Bool) (hj : s.ws[j]? = some l)
       (hp : l.pc = .lead .merging m o) :
-      Step s { s with ws := s.ws.set j { l with pc := .lead .journal m o, gseq := s.seq + 1 } }
+      Step s { s with ws := s.ws.set j (l.grouped s.seq m o) }
   /-- `db.writeJournal` succeeded -/
   | journalOk (s : St) (j : Nat) (l : Thread) (m : Nat) (o : Bool) (hj : s.ws[j]? = some l)
       (hp : l.pc = .lead .journal m o) :
-      Step s { s with ws := s.ws.set j { l with pc := .lead .apply m o, jout := some true } }
-  /-- `db.writeJournal` failed: `db.unlockWrite(overflow, merged, err)` -/
+      Step s { s with ws := s.ws.set j ((l.journalled true).setPc (.lead .apply m o)) }
+  /-- `db.writeJournal` failed: `db.addSeq(batchesLen(batches))` (the record may have reached the file),
+  `db.unlockWrite(overflow, merged, err)` -/
   | journalFail (s : St) (j : Nat) (l : Thread) (m : Nat) (o : Bool) (hj : s.ws[j]? = some l)
       (hp : l.pc = .lead .journal m o) :
-      Step s { s with ws := s.ws.set j { l.unlock m o .err with jout := some false } }
+      Step s { s with seq := s.seq + l.gn, ws := s.ws.set j ((l.journalled false).unlock m o .err) }
   /-- `batch.putMem` for all batches of the group -/
   | apply (s : St) (j : Nat) (l : Thread) (m : Nat) (o : Bool) (hj : s.ws[j]? = some l)
       (hp : l.pc = .lead .apply m o) :
-      Step s { s with ws := s.ws.set j (l.setPc (.lead .publish m o)) }
+      Step s { s with ws := s.ws.set j { l with pc := .lead .publish m o, arecs := l.flat } }
   /-- `db.addSeq(n)`; `rot` = `batch.internalLen >= mdbFree` -/
   | publish (s : St) (j : Nat) (l : Thread) (m : Nat) (o : Bool) (rot : Bool) (hj : s.ws[j]? = some l)
-      (hp : l.pc = .lead .publish m o) :
+      (hp : l.pc = .lead .publish m o) (hrot : rot = decide (l.gfree ≤ l.bsize)) :
       Step s { s with seq := s.seq + l.gn,
                       ws := s.ws.set j (if rot then { l with pc := .lead .rotate m o, pub := some (s.seq + l.gn) }
                                         else { l.unlock m o .ok with pub := some (s.seq + l.gn) }) }
@@ -220,14 +401,24 @@ inductive Step : St → St → Prop
   | ack (s : St) (i j : Nat) (w l : Thread) (k m : Nat) (o : Bool) (r : Res) (hj : s.ws[j]? = some l)
       (hi : s.ws[i]? = some w) (hp : l.pc = .lead (.acking (k + 1) r) m o) (hq : w.pc = .waitAck) :
       Step s { s with ws := set2 s.ws j (l.setPc (.lead (.acking k r) m o)) i (w.setPc (.returned r)) }
-  /-- `db.writeMergedC <- false`: the lock goes to the writer that did not fit -/
-  | handoff (s : St) (i j : Nat) (w l : Thread) (m : Nat) (r : Res) (hj : s.ws[j]? = some l)
-      (hi : s.ws[i]? = some w) (hp : l.pc = .lead (.acking 0 r) m true) (hq : w.pc = .waitMerged) :
-      Step s { s with ws := set2 s.ws j (l.setPc (.returned r)) i w.asLeader, cur := some i }
+  /-- `if overflow { db.writeMergedC <- false }`: the lock goes to the writer that did not fit (then the
+  leader returns: the deferred `batchPool.Put`; the new leader, if a `Put`, takes its batch from the pool) -/
+  | handoff (s : St) (i j : Nat) (w l : Thread) (m : Nat) (r : Res) (g : Option Nat) (hj : s.ws[j]? = some l)
+      (hi : s.ws[i]? = some w) (hp : l.pc = .lead (.acking 0 r) m true) (hq : w.pc = .waitMerged)
+      (hc : s.cfg.handoffOnErr = true ∨ r = .ok) :
+      Step s { s with ws := set2 s.ws j (l.setPc (.returned r)) i w.asLeader, cur := some i,
+                      pool := poolAfterGet (poolAfterPut s.pool l) w.put g }
   /-- `<-db.writeLockC` -/
   | release (s : St) (j : Nat) (l : Thread) (m : Nat) (r : Res) (hj : s.ws[j]? = some l)
       (hp : l.pc = .lead (.acking 0 r) m false) :
-      Step s { s with ws := s.ws.set j (l.setPc (.returned r)), token := false, cur := none }
+      Step s { s with ws := s.ws.set j (l.setPc (.returned r)), token := false, cur := none,
+                      pool := poolAfterPut s.pool l }
+  /-- only with `handoffOnErr = false` (`if overflow && err == nil { … } else { <-db.writeLockC }`): the
+  lock is released although a writer waits on `writeMergedC` -/
+  | releaseLost (s : St) (j : Nat) (l : Thread) (m : Nat) (r : Res) (hj : s.ws[j]? = some l)
+      (hp : l.pc = .lead (.acking 0 r) m true) (hc : s.cfg.handoffOnErr = false) (hr : r ≠ .ok) :
+      Step s { s with ws := s.ws.set j (l.setPc (.returned r)), token := false, cur := none,
+                      pool := poolAfterPut s.pool l }
 
 inductive Steps : St → St → Prop
   | refl (s : St) : Steps s s
@@ -242,24 +433,33 @@ theorem Steps.single {s t : St} (h : Step s t) : Steps s t := .tail (.refl s) h
 
 /-- fresh thread record: nothing has happened yet -/
 def Thread.fresh (w : Thread) : Prop :=
-  w.pc = .idle ∧ w.acc = none ∧ w.jout = none ∧ w.pub = none ∧ w.gres = none
+  w.pc = .idle ∧ w.acc = none ∧ w.jout = none ∧ w.pub = none ∧ w.gres = none ∧
+  w.cb = w.recs ∧ w.batches = [] ∧ w.members = [] ∧ w.jsync = none
 
-/-- initial states: every thread idle, the lock free; `closed`/`perErr`/`seq` arbitrary -/
-def Init (s : St) : Prop :=
+/-- initial states whatever the configuration: every thread idle, the lock free;
+`closed`/`perErr`/`seq`/`pool` arbitrary -/
+def InitAny (s : St) : Prop :=
   s.token = false ∧ s.cur = none ∧ ∀ w ∈ s.ws, w.fresh
+
+/-- initial states: as `InitAny`, and `unlockWrite` answers the overflowed writer whatever the leader's
+result (the one configuration flag that changes the channel protocol; `C10.code_cfg`) -/
+def Init (s : St) : Prop :=
+  s.cfg.handoffOnErr = true ∧ s.token = false ∧ s.cur = none ∧ ∀ w ∈ s.ws, w.fresh
 
 def Reachable (s : St) : Prop := ∃ s0, Init s0 ∧ Steps s0 s
 
 /-! ## executable form -/
 
 inductive Label
-  | call (i : Nat) | retClosed (i : Nat) | retPerErr (i : Nat) | lock (i : Nat) | hAcquire (i : Nat)
+  | call (i : Nat) | retClosed (i : Nat) | retPerErr (i : Nat) | lock (i : Nat) (g : Option Nat := none)
+  | hAcquire (i : Nat)
   | hRelease (i : Nat)
-  | flushOk (j lim : Nat) | flushFail (j : Nat)
-  | recvAccept (i j : Nat) | reply (i j : Nat) | recvOverflow (i j : Nat) | mergeDone (j : Nat)
+  | flushOk (j free : Nat) | flushFail (j : Nat)
+  | recvAccept (i j : Nat) (g : Option Nat := none) | reply (i j : Nat) | recvOverflow (i j : Nat)
+  | mergeDone (j : Nat)
   | journalOk (j : Nat) | journalFail (j : Nat) | apply (j : Nat) | publish (j : Nat) (rot : Bool)
   | rotateOk (j : Nat) | rotateFail (j : Nat)
-  | ack (i j : Nat) | handoff (i j : Nat) | release (j : Nat)
+  | ack (i j : Nat) | handoff (i j : Nat) (g : Option Nat := none) | release (j : Nat) | releaseLost (j : Nat)
 deriving DecidableEq, Repr
 
 /-- one step, executable; `step?_sound` (in `Proofs/WriteProtoExec`) shows `step? s a = some t → Step s t` -/
@@ -287,11 +487,12 @@ def step? (s : St) : Label → Option St
         some { s with ws := s.ws.set i (w.setPc (.returned .perErr)) }
       else none
     | none => none
-  | .lock i =>
+  | .lock i g =>
     match s.ws[i]? with
     | some w =>
       if w.pc = .selecting ∧ w.kind = .writer ∧ s.token = false then
-        some { s with ws := s.ws.set i w.asLeader, token := true, cur := some i }
+        some { s with ws := s.ws.set i w.asLeader, token := true, cur := some i,
+                      pool := poolAfterGet s.pool w.put g }
       else none
     | none => none
   | .hAcquire i =>
@@ -308,11 +509,13 @@ def step? (s : St) : Label → Option St
         some { s with ws := s.ws.set i (w.setPc (.returned .ok)), token := false, cur := none }
       else none
     | none => none
-  | .flushOk j lim =>
+  | .flushOk j free =>
     match s.ws[j]? with
     | some l =>
       match l.pc with
-      | .lead .flush _ _ => some { s with ws := s.ws.set j { l with pc := .lead .merging 0 false, glimit := lim } }
+      | .lead .flush _ _ =>
+        some { s with ws := s.ws.set j { l with pc := .lead .merging 0 false, gfree := free,
+                                                glimit := mergeLimitOf l.bsize free, batches := [.own] } }
       | _ => none
     | none => none
   | .flushFail j =>
@@ -322,16 +525,16 @@ def step? (s : St) : Label → Option St
       | .lead .flush _ _ => some { s with ws := s.ws.set j (l.unlock 0 false .err) }
       | _ => none
     | none => none
-  | .recvAccept i j =>
+  | .recvAccept i j g =>
     match s.ws[j]?, s.ws[i]? with
     | some l, some w =>
       match l.pc with
       | .lead .merging m false =>
         if l.merge = true ∧ 0 < l.glimit ∧ w.pc = .selecting ∧ w.kind = .writer ∧ w.merge = true
             ∧ w.size ≤ l.glimit then
-          some { s with ws := set2 s.ws j { l with pc := .lead .replying m false, glimit := l.glimit - w.size,
-                                                   gn := l.gn + w.nrec, gsync := l.gsync || w.sync }
-                                     i (w.setPc .waitMerged) }
+          some { s with ws := set2 s.ws j ((l.accept s.cfg i w (poolGet s.pool g).1).setPc (.lead .replying m false))
+                                     i (w.setPc .waitMerged),
+                        pool := poolAfterGet s.pool (w.put && !l.our) g }
         else none
       | _ => none
     | _, _ => none
@@ -353,8 +556,7 @@ def step? (s : St) : Label → Option St
       | .lead .merging m false =>
         if l.merge = true ∧ 0 < l.glimit ∧ w.pc = .selecting ∧ w.kind = .writer ∧ w.merge = true
             ∧ l.glimit < w.size then
-          some { s with ws := set2 s.ws j { l with pc := .lead .journal m true, gseq := s.seq + 1 }
-                                     i (w.setPc .waitMerged) }
+          some { s with ws := set2 s.ws j (l.grouped s.seq m true) i (w.setPc .waitMerged) }
         else none
       | _ => none
     | _, _ => none
@@ -362,28 +564,29 @@ def step? (s : St) : Label → Option St
     match s.ws[j]? with
     | some l =>
       match l.pc with
-      | .lead .merging m o => some { s with ws := s.ws.set j { l with pc := .lead .journal m o, gseq := s.seq + 1 } }
+      | .lead .merging m o => some { s with ws := s.ws.set j (l.grouped s.seq m o) }
       | _ => none
     | none => none
   | .journalOk j =>
     match s.ws[j]? with
     | some l =>
       match l.pc with
-      | .lead .journal m o => some { s with ws := s.ws.set j { l with pc := .lead .apply m o, jout := some true } }
+      | .lead .journal m o => some { s with ws := s.ws.set j ((l.journalled true).setPc (.lead .apply m o)) }
       | _ => none
     | none => none
   | .journalFail j =>
     match s.ws[j]? with
     | some l =>
       match l.pc with
-      | .lead .journal m o => some { s with ws := s.ws.set j { l.unlock m o .err with jout := some false } }
+      | .lead .journal m o =>
+        some { s with seq := s.seq + l.gn, ws := s.ws.set j ((l.journalled false).unlock m o .err) }
       | _ => none
     | none => none
   | .apply j =>
     match s.ws[j]? with
     | some l =>
       match l.pc with
-      | .lead .apply m o => some { s with ws := s.ws.set j (l.setPc (.lead .publish m o)) }
+      | .lead .apply m o => some { s with ws := s.ws.set j { l with pc := .lead .publish m o, arecs := l.flat } }
       | _ => none
     | none => none
   | .publish j rot =>
@@ -391,9 +594,11 @@ def step? (s : St) : Label → Option St
     | some l =>
       match l.pc with
       | .lead .publish m o =>
-        some { s with seq := s.seq + l.gn,
-                      ws := s.ws.set j (if rot then { l with pc := .lead .rotate m o, pub := some (s.seq + l.gn) }
-                                        else { l.unlock m o .ok with pub := some (s.seq + l.gn) }) }
+        if rot = decide (l.gfree ≤ l.bsize) then
+          some { s with seq := s.seq + l.gn,
+                        ws := s.ws.set j (if rot then { l with pc := .lead .rotate m o, pub := some (s.seq + l.gn) }
+                                          else { l.unlock m o .ok with pub := some (s.seq + l.gn) }) }
+        else none
       | _ => none
     | none => none
   | .rotateOk j =>
@@ -420,13 +625,14 @@ def step? (s : St) : Label → Option St
         else none
       | _ => none
     | _, _ => none
-  | .handoff i j =>
+  | .handoff i j g =>
     match s.ws[j]?, s.ws[i]? with
     | some l, some w =>
       match l.pc with
       | .lead (.acking 0 r) _ true =>
-        if w.pc = .waitMerged then
-          some { s with ws := set2 s.ws j (l.setPc (.returned r)) i w.asLeader, cur := some i }
+        if w.pc = .waitMerged ∧ (s.cfg.handoffOnErr = true ∨ r = .ok) then
+          some { s with ws := set2 s.ws j (l.setPc (.returned r)) i w.asLeader, cur := some i,
+                        pool := poolAfterGet (poolAfterPut s.pool l) w.put g }
         else none
       | _ => none
     | _, _ => none
@@ -435,7 +641,19 @@ def step? (s : St) : Label → Option St
     | some l =>
       match l.pc with
       | .lead (.acking 0 r) _ false =>
-        some { s with ws := s.ws.set j (l.setPc (.returned r)), token := false, cur := none }
+        some { s with ws := s.ws.set j (l.setPc (.returned r)), token := false, cur := none,
+                      pool := poolAfterPut s.pool l }
+      | _ => none
+    | none => none
+  | .releaseLost j =>
+    match s.ws[j]? with
+    | some l =>
+      match l.pc with
+      | .lead (.acking 0 r) _ true =>
+        if s.cfg.handoffOnErr = false ∧ r ≠ .ok then
+          some { s with ws := s.ws.set j (l.setPc (.returned r)), token := false, cur := none,
+                        pool := poolAfterPut s.pool l }
+        else none
       | _ => none
     | none => none
 
